@@ -862,3 +862,81 @@ def slice_check(ctx, inst, entries, family):
     if und == 0:
         ctx.ok(inst, '-', '%d panic-capable sites in %d bodies reachable from the %s family, all discharged' % (n, len(reach), family), nontrivial=n > 0)
     ctx.count('panic_sites_in_%s_family' % family, n)
+
+
+# ------------------------------------------------------------------------------------------------ dependency census
+# Dependency functions the crate calls whose own MIR (to depth 2) contains panic-capable instructions. Each is either in
+# DEP_PRECONDITIONS (then every call site is a ledger site and must be discharged) or reviewed here with the reason why no
+# argument the crate can pass reaches the panic. A new callee of this kind is reported until it is entered in one of the two
+# tables: that is how D11 (SSKRShare::identifier on a short share) would have been found mechanically.
+DEP_REVIEWED = {
+    'compressed::Compressed as dcbor::cbor_tagged_decodable::CBORTaggedDecodable>::from_untagged_cbor': 'indexes elements[0..=3] only after `len() < 3 || len() > 4` bails; Compressed::new validates sizes',
+    'encrypted_message::EncryptedMessage as dcbor::cbor_tagged_decodable::CBORTaggedDecodable>::from_untagged_cbor': 'indexes elements[0..=3] after `len() < 3` bails; Nonce / AuthenticationTag::from_data_ref check their lengths',
+    'digest::Digest::from_data_ref': 'copy_from_slice after the explicit 32-byte length check',
+    'digest::Digest::short_description': 'slices a fixed 32-byte array',
+    'id::arid::ARID::short_description': 'slices a fixed 32-byte array',
+    'salt::Salt::new_for_size_using': 'unwraps new_in_range_using over a range it computes itself (lo <= hi by construction)',
+    'symmetric_key::SymmetricKey::from_data_ref': 'copy_from_slice after the explicit 32-byte length check',
+    'tags_registry::register_tags': 'TagsStore::insert of the fixed, distinct registry tags (conflict precondition cannot arise); lock unwrap as D-LOCK',
+    'cbor::CBOR::to_cbor_data': 'varint width match has an unreachable default arm',
+    'cbor_codable::CBOREncodable::to_cbor_data': 'same as CBOR::to_cbor_data',
+    'cbor::CBOR::try_from_data': 'the validating parser indexes only behind its own length checks (trusted base of C06)',
+    'cbor_tagged_decodable::CBORTaggedDecodable::from_tagged_cbor': 'cbor_tags()[0]: every CBORTagged impl returns a non-empty tag list (tags_for_values of a non-empty literal)',
+    'cbor_tagged_encodable::CBORTaggedEncodable::tagged_cbor': 'cbor_tags()[0]: as above',
+    'dump::<impl dcbor::cbor::CBOR>::hex_opt': 'diagnostic dump: slices computed from the encoded length of the same value',
+    'map::Map::insert': 'key.to_cbor_data(): as CBOR::to_cbor_data',
+    'tags::LazyTagsStore::get': 'Mutex lock unwrap / store initialised inside call_once (C20.4)',
+    'tags::tags_for_values': 'unwrap_or_else, not unwrap: falls back to an unnamed tag',
+}
+
+
+def dep_census(ctx, inst):
+    deps = {k: ctx.dep(k) for k in ('dcbor', 'bc_components')}
+    if any(v is None for v in deps.values()):
+        ctx.skip(inst, 'dependency facts not loaded')
+        return
+    F = ctx.F
+    direct = {}
+    for k, D in deps.items():
+        m = {}
+        for s in enumerate_sites(D):
+            if s['cls'] != 'overflow':
+                m.setdefault(s['body'].path, []).append((s['cls'], s['what']))
+        direct[k] = m
+    called = {}
+    for b in F.bodies:
+        if b.span and b.span.get('exp'):
+            continue
+        for bi, c, t in b.calls():
+            if c is None:
+                continue
+            kr = c.rkrate or c.krate
+            if kr in deps:
+                cb = deps[kr].by_hash.get(c.best_hash)
+                if cb is not None:
+                    called.setdefault((kr, cb.path), (c, b, bi))
+    def trans(D, ds, b, depth, seen):
+        res = list(ds.get(b.path, []))
+        if depth > 0:
+            for bi, c, t in b.calls():
+                cb = D.by_hash.get(c.best_hash) if c is not None else None
+                if cb is not None and cb.path not in seen:
+                    seen.add(cb.path)
+                    res.extend(trans(D, ds, cb, depth - 1, seen))
+        return res
+    n = 0
+    for (kr, path), (c, b, bi) in sorted(called.items()):
+        ts = trans(deps[kr], direct[kr], deps[kr].by_path[path], 2, {path})
+        if not ts:
+            continue
+        n += 1
+        pre = [k for k in DEP_PRECONDITIONS if c.name == k[1] and c.is_method(k[0], k[1])]
+        rev = [k for k in DEP_REVIEWED if k in path]
+        if pre:
+            ctx.ok(inst, ctx.site(b, bi), 'dependency callee %s has a panicking precondition (%s): every call site is a ledger site' % (path.split('::')[-1], DEP_PRECONDITIONS[pre[0]]), nontrivial=True)
+        elif rev:
+            ctx.ok(inst, ctx.site(b, bi), 'dependency callee %s reviewed: %s' % (path, DEP_REVIEWED[rev[0]]), nontrivial=True)
+        else:
+            ctx.fail(inst, ctx.site(b, bi), 'dependency function %s, called here, contains panic-capable instructions (%s) and is neither in the precondition table nor reviewed: '
+                     'its preconditions on caller-supplied data are unknown' % (path, sorted(set('%s:%s' % x for x in ts))[:4]), key='%s|dep|%s' % (inst, path), rule='PANIC/DEP-UNREVIEWED')
+    ctx.count('dependency_callees_with_panic_sites', n)
